@@ -192,6 +192,30 @@ def impl(case):
         out["concurrent_ok"] = gathered == want_v and turns == want_m
         if not out["concurrent_ok"]:
             out["concurrent_counterexample"] = {"gathered": gathered, "want_values": want_v, "in_turns": turns, "want_matches": want_m}
+    import io
+    import json as _json
+    jtxt = _json.dumps(case["doc"])
+
+    def _file_forms():
+        r = {}
+        for name, mk in (("stringio", lambda: io.StringIO(jtxt)), ("bytesio", lambda: io.BytesIO(jtxt.encode("utf-8"))), ("text", lambda: jtxt)):
+            if not isinstance(case["doc"], (dict, list)):
+                continue
+            sv = attempt(lambda: [SX.canon(v) for v in c.findall(mk(), filter_context=deep(ctx))])
+            av = attempt(lambda: [SX.canon(v) for v in asyncio.run(c.findall_async(mk(), filter_context=deep(ctx)))])
+
+            async def _it():
+                it = await c.finditer_async(mk(), filter_context=deep(ctx))
+                return [SX.canon(m.obj) async for m in it]
+            ai = attempt(lambda: asyncio.run(_it()))
+            r[name] = sv == av == ai == out["values"]
+            if not r[name]:
+                r[name + "_detail"] = {"sync": sv, "async": av, "async_iter": ai}
+        return r
+    ff = _file_forms()
+    out["file_forms_ok"] = all(v for k, v in ff.items() if not k.endswith("_detail"))
+    if not out["file_forms_ok"]:
+        out["file_forms_counterexample"] = ff
     out["pkg_async_values"] = attempt(lambda: [SX.canon(v) for v in asyncio.run(jsonpath.findall_async(text, deep(case["doc"]), filter_context=ctx))])
     return out
 
@@ -211,10 +235,11 @@ def decode(sx, case):
         model["gathered_all_equal"] = True
         model["gathered_first"] = model["async_values"]
     model["pkg_async_values"] = model["async_values"]
+    model["file_forms_ok"] = True
     if "other" in case:
         model["concurrent_ok"] = True
     # the property is an equivalence: the specification of the async results is the sync result
-    spec_ = {"async_values": sync_v, "async_matches": sync_m, "pkg_async_values": sync_v}
+    spec_ = {"async_values": sync_v, "async_matches": sync_m, "pkg_async_values": sync_v, "file_forms_ok": True}
     if case["gather"]:
         spec_["gathered_all_equal"] = True
         spec_["gathered_first"] = sync_v
@@ -228,7 +253,7 @@ def project(case, res, dec=None):
         return {"unexpected": res["compile"]}
     # compare the implementation's async results with ITS OWN sync results (the property), and
     # through the spec with the model's sync results
-    out = {k: res[k] for k in ("async_values", "async_matches", "pkg_async_values") if k in res}
+    out = {k: res[k] for k in ("async_values", "async_matches", "pkg_async_values", "file_forms_ok") if k in res}
     if case["gather"]:
         out["gathered_all_equal"] = res.get("gathered_all_equal")
         out["gathered_first"] = res.get("gathered_first")
